@@ -54,9 +54,20 @@ def run(tier):
         raise common.ToolError("Reclaim.tla does not refute the alias-on-read / release-before-promote discipline (model not discriminating)")
     tally.add_tlc("Reclaim(model of the ownership protocol)", mc)
     decl = {"GenArrCases": "lang/GenArrCases.cfg", "GenAliasCases": "lang/GenAliasCases.cfg"}
-    for module, env in profiles(tier) + [("GenArrCases", {}), ("GenAliasCases", {"LONGSTR": "0"}), ("GenAliasCases", {"LONGSTR": "1"})]:
+    # string lengths at the edges of the pool's size classes (the table is read from the implementation):
+    # the largest pooled size - 1 / exactly / + 1 (first size that is NOT recycled) and one inner class edge.
+    # GenAliasCases' computed strings are tail + 4 bytes long.
+    import memcheck
+    info = memcheck.replay([{"id": 0, "info": True}], "pool", profile="dev", nworkers=1)[0]
+    if info.get("st") != "ok" or not info.get("table"):
+        raise common.ToolError("vh pool info failed: %s" % str(info)[:200])
+    sizes = sorted(t[0] for t in info["table"])
+    edges = sorted({sizes[-1] - 1, sizes[-1], sizes[-1] + 1, sizes[len(sizes) // 2], sizes[len(sizes) // 2] + 1} if tier == "quick"
+                   else {x + d for x in sizes for d in (0, 1)} | {sizes[-1] - 1})
+    boundary = [("GenAliasCases", {"LONGSTR": str(n - 4)}) for n in edges if n - 4 >= 2]
+    for module, env in profiles(tier) + [("GenArrCases", {}), ("GenAliasCases", {"LONGSTR": "0"}), ("GenAliasCases", {"LONGSTR": "1"})] + boundary:
         r = le.generate(module, env=env, timeout=2400, cfg=decl.get(module, "lang/MCGen.cfg"), coverage=module not in decl)
-        tally.add_tlc(module, r)
+        tally.add_tlc(module + (":tail" + env["LONGSTR"] if "LONGSTR" in env else ""), r)
         judged = le.replay(r.records, modes=["nn", "fn"], ev=1, compare_events=True)
         tally.add(judged)
         for (c, src, maps, classes, resps) in judged:
